@@ -269,14 +269,21 @@ func runC37(c *Ctx) {
 		if fn == nil {
 			continue
 		}
-		// limit comparisons
+		// limit comparisons — in the function itself or in the same-package helper it delegates the
+		// check-and-reserve step to (the rule is then judged inside that helper)
 		var cmps []*ssa.BinOp
-		EachInstr(fn, func(in ssa.Instruction) {
-			b, ok := in.(*ssa.BinOp)
-			if ok && b.Op == token.GEQ && strings.Contains(D(b.Y), "ClientChannelLimit") && strings.Contains(D(b.X), "len(Client.channels)") {
-				cmps = append(cmps, b)
+		for _, g := range w.Deep(fn, 2).Funcs {
+			EachInstr(g, func(in ssa.Instruction) {
+				b, ok := in.(*ssa.BinOp)
+				if ok && b.Op == token.GEQ && strings.Contains(D(b.Y), "ClientChannelLimit") && strings.Contains(D(b.X), "len(Client.channels)") {
+					cmps = append(cmps, b)
+				}
+			})
+			if len(cmps) > 0 {
+				fn = g
+				break
 			}
-		})
+		}
 		if !c.Anchor("C37.R1", "channel-limit comparison in "+s.fn, len(cmps) > 0) {
 			continue
 		}
